@@ -13,10 +13,22 @@ type config struct {
 	progs [][]string
 	bound int // preemption bound of the DFS (0 = default 3)
 	max   int // cap on the number of schedules in the quick tier (0 = default)
+	uni   bool // run with the runtime shim reporting GOMAXPROCS == 1 (header `list1`)
 }
 
 func (c config) header() string {
-	return fmt.Sprintf("@ C11 list %d%s", c.ninit, drive.FmtProgs(c.progs))
+	kind := "list"
+	if c.uni {
+		kind = "list1"
+	}
+	return fmt.Sprintf("@ C11 %s %d%s", kind, c.ninit, drive.FmtProgs(c.progs))
+}
+
+func (c config) procs() int {
+	if c.uni {
+		return 1
+	}
+	return 8
 }
 
 func p(calls ...string) []string { return calls }
@@ -45,6 +57,11 @@ var quickDFS = []config{
 	{ninit: 0, progs: [][]string{p("u11"), p("u21"), p("o"), p("l")}, bound: 2, max: 2500},
 	{ninit: 1, progs: [][]string{p("u11"), p("u21"), p("o", "l")}, max: 2500},
 	{ninit: 0, progs: [][]string{p("u11"), p("u21"), p("w"), p("l")}, bound: 2, max: 2500},
+	// hidden input GOMAXPROCS == 1 (code that takes a single-P shortcut still has every
+	// interleaving of its atomic steps: goroutines are preempted on one P too)
+	{ninit: 2, progs: [][]string{p("o"), p("o")}, uni: true},
+	{ninit: 2, progs: [][]string{p("o", "o"), p("o", "l")}, uni: true, max: 2500},
+	{ninit: 1, progs: [][]string{p("u11", "o"), p("o", "u21")}, uni: true, max: 2500},
 	// after a failure: Pop / PopWait(0) returning false (empty, lost CAS) followed by
 	// ordinary calls in the same thread
 	{ninit: 0, progs: [][]string{p("o", "u11", "o"), p("z", "u21", "l")}, max: 2500},
@@ -119,6 +136,27 @@ var f7Witness = core.Case{Tag: "corpus-F7", Lines: []string{
 	"step 2", "drain", "final",
 }}
 
+// starvedPusher: pusher A (thread 0) is parked right after its link CAS (park = 3) or after
+// its len increment (park = 4); pusher B (thread 1) then takes k steps alone — on the
+// code as it is, k/3 fruitless (load tail, load next, Gosched) rounds; a Push that gives
+// up waiting after some number of spins and overtakes A shows here; then A resumes, a
+// popper, a Len and a third pusher run.  Under the deterministic scheduler "starved for
+// hundreds of yields" is just a long schedule.
+func starvedPusher(k, park int) core.Case {
+	lines := []string{"@ C11 list 0 T u11 T u21 T o o l T u31"}
+	for i := 0; i < park; i++ {
+		lines = append(lines, "step 0")
+	}
+	for i := 0; i < k; i++ {
+		lines = append(lines, "step 1")
+	}
+	for i := park; i < 5; i++ {
+		lines = append(lines, "step 0")
+	}
+	lines = append(lines, "drain", "final")
+	return core.Case{Tag: "starved-pusher", Lines: lines}
+}
+
 func corpus() []core.Case {
 	cases := []core.Case{
 		f7Witness,
@@ -136,6 +174,9 @@ func corpus() []core.Case {
 		// (fully explicit schedule: with a `drain` the Pop and the PopWait(0) could starve the PopWait(-1))
 		{Tag: "corpus", Lines: []string{"@ C11 list 2 T w T o T z", "step 0", "step 0", "step 0", "step 1", "step 1", "step 1", "step 1", "step 1",
 			"step 0", "step 0", "step 0", "step 0", "step 0", "step 0", "step 0", "step 2", "step 2", "final"}},
+	}
+	for _, k := range []int{30, 300, 765, 771, 774, 780, 900, 1600} {
+		cases = append(cases, starvedPusher(k, 3), starvedPusher(k, 4))
 	}
 	for _, cfg := range append(append([]config{}, quickDFS...), thoroughDFS...) {
 		if !feasible(cfg.ninit, cfg.progs) {
@@ -159,7 +200,7 @@ func corpus() []core.Case {
 		if cfg.max > 0 && tier != "thorough" {
 			m = cfg.max
 		}
-		drive.DFS(factory(cfg.ninit, cfg.progs), b, maxDepth, m, func(lines []string) bool {
+		drive.DFS(factory(cfg.ninit, cfg.progs, cfg.procs()), b, maxDepth, m, func(lines []string) bool {
 			cases = append(cases, core.Case{Tag: "dfs", Lines: append([]string{hdr}, lines...)})
 			return true
 		})
@@ -168,6 +209,10 @@ func corpus() []core.Case {
 }
 
 func gen(r *core.Rand, tier string) core.Case {
+	if r.Intn(60) == 0 {
+		// long starvation of one pusher by a parked one (any threshold up to ~1300 spins)
+		return starvedPusher(r.Range(6, 4000), r.Range(3, 4))
+	}
 	nthreads := r.Range(2, 4)
 	maxOps := 3
 	if tier == "thorough" {
@@ -198,7 +243,8 @@ func gen(r *core.Rand, tier string) core.Case {
 	}
 	makeFeasible(cfg.ninit, cfg.progs)
 	mode := r.Pick(30, 35, 35)
-	lines := drive.Sample(factory(cfg.ninit, cfg.progs), r, mode, 10*total+12)
+	cfg.uni = r.Intn(4) == 0
+	lines := drive.Sample(factory(cfg.ninit, cfg.progs, cfg.procs()), r, mode, 10*total+12)
 	tag := []string{"random-walk", "sticky-walk", "pct"}[mode]
 	return core.Case{Tag: tag, Lines: append([]string{cfg.header()}, lines...)}
 }
@@ -226,5 +272,46 @@ var raceExtra = core.Extra{
 				Payload: map[string]any{"program": "go/internal/sched/racestress list", "report": strings.Split(races, "\n")}}}
 		}
 		return 1, fmt.Sprintf("%d ms, no race reported; %s", ms, sum), nil
+	},
+}
+
+var uniprocExtra = core.Extra{
+	Name: "single-P stress of the unmodified listz package (runtime.GOMAXPROCS(1), movers front-to-back, accounting)",
+	Run: func(ctx *core.Ctx) (int, string, []core.ExtraFailure) {
+		ms := 2000
+		if ctx.Tier == "thorough" || ctx.Escalate > 1 {
+			ms = 15000
+		}
+		sum, races, err := drive.RaceStress(ctx.VerifDir, ctx.Repo, "list1", ms)
+		payload := func(extra any) map[string]any {
+			return map[string]any{"program": "go/internal/sched/racestress list1 (GOMAXPROCS(1); 8 goroutines: if v, ok := l.Pop(); ok { l.Push(v) } on one list holding 1..64; then drain)", "result": extra}
+		}
+		if cr, ok := err.(*drive.Crash); ok {
+			return 1, "stress program crashed", []core.ExtraFailure{{
+				Failure: core.Failure{Key: "uniproc-crash", Desc: "Pop/Push movers on one SyncList crashed with GOMAXPROCS(1)"},
+				Payload: payload(strings.Split(cr.Output, "\n"))}}
+		}
+		if err != nil {
+			return 0, "could not run: " + err.Error(), []core.ExtraFailure{{
+				Failure: core.Failure{Key: "race-run-failed", Desc: err.Error()}, NoInput: true, Payload: err.Error()}}
+		}
+		var fails []core.ExtraFailure
+		if races != "" {
+			fails = append(fails, core.ExtraFailure{
+				Failure: core.Failure{Key: "data-race", Desc: "the Go race detector reports a data race in SyncList with GOMAXPROCS(1)"},
+				Payload: payload(strings.Split(races, "\n"))})
+		}
+		var moved, flen, drained, bad, neg, want int
+		if n, _ := fmt.Sscanf(sum, "moved=%d final-len=%d drained=%d accounting-violations=%d negative-len-samples=%d want=%d", &moved, &flen, &drained, &bad, &neg, &want); n != 6 {
+			return 1, "unparsable summary: " + sum, []core.ExtraFailure{{
+				Failure: core.Failure{Key: "race-run-failed", Desc: "unparsable summary " + sum}, NoInput: true, Payload: sum}}
+		}
+		// verdict independent of timing: values are only moved, never created or dropped
+		if bad != 0 || drained != want || flen != want || neg != 0 {
+			fails = append(fails, core.ExtraFailure{
+				Failure: core.Failure{Key: "uniproc-accounting", Desc: fmt.Sprintf("with GOMAXPROCS(1), after only moving values from the front to the back of one list holding 1..%d: Len() == %d, %d values drained, %d values missing/duplicated/invented, %d negative Len() samples", want, flen, drained, bad, neg)},
+				Payload: payload(sum)})
+		}
+		return 1, fmt.Sprintf("%d ms on one P, %s", ms, sum), fails
 	},
 }
